@@ -8,6 +8,7 @@ property monitor: an independent struct-based Bitcoin transaction codec and hash
 import hashlib
 import json
 import os
+import signal
 import struct
 
 import lbry.wallet  # noqa: F401  (import order)
@@ -149,6 +150,32 @@ def err_name(e):
     return type(e).__name__
 
 
+class ImplTimeout(BaseException):
+    """BaseException: must not be swallowed by the adapters' `except Exception`"""
+
+
+IMPL_LIMIT_S = 5.0
+HUNG = 'did-not-terminate'
+
+
+def _on_alarm(signum, frame):
+    raise ImplTimeout()
+
+
+def guarded(fn, *args):
+    """run an implementation adapter under a wall-clock limit (the real reader terminates on every input -- theorem
+    C05_deserialize_total for the model -- so a hang is a reportable difference, not something to wait for)"""
+    old = signal.signal(signal.SIGALRM, _on_alarm)
+    signal.setitimer(signal.ITIMER_REAL, IMPL_LIMIT_S)
+    try:
+        return fn(*args)
+    except ImplTimeout:
+        return {'err': HUNG}
+    finally:
+        signal.setitimer(signal.ITIMER_REAL, 0)
+        signal.signal(signal.SIGALRM, old)
+
+
 def impl_build(t):
     """assemble the transaction through the library API and read .raw / .id"""
     try:
@@ -161,7 +188,7 @@ def impl_build(t):
         tx.add_inputs(ins)
         tx.add_outputs([Output(a, OutputScript(bytes.fromhex(scr))) for a, scr in t['outs']])
     except Exception as e:  # construction itself is not expected to fail
-        return {'raw': {'err': 'construct:' + err_name(e)}, 'id': {'err': 'construct:' + err_name(e)}}, None
+        return {'raw': {'err': 'construct:' + err_name(e)}, 'id': {'err': 'construct:' + err_name(e)}, 'sizes': None}, None
     try:
         raw = tx.raw.hex()
     except Exception as e:
@@ -171,10 +198,21 @@ def impl_build(t):
         txid = bytes.fromhex(tx.id).hex()
     except Exception as e:
         txid = {'err': err_name(e)}
-    return {'raw': raw, 'id': txid}, tx
+    sizes = None
+    if isinstance(raw, str):
+        try:
+            sizes = {'size': tx.size, 'base_size': tx.base_size, 'ins': [i.size for i in tx.inputs],
+                     'outs': [o.size for o in tx.outputs]}
+        except Exception as e:
+            sizes = {'err': err_name(e)}
+    return {'raw': raw, 'id': txid, 'sizes': sizes}, tx
 
 
 def impl_observe(raw):
+    return guarded(_impl_observe, raw)
+
+
+def _impl_observe(raw):
     """Transaction(raw): parsed fields, _serialize() of them, id; or the exception class"""
     try:
         tx = Transaction(raw)
@@ -240,6 +278,14 @@ def monitor_build(t, built, parsed):
         return f'reference decoder rejects Transaction.raw ({e})'
     if back != t or wits is not None:
         return 'reference decoder reads different fields from Transaction.raw'
+    sz = built['sizes']
+    if not isinstance(sz, dict) or 'err' in sz:
+        return f'size of an in-range transaction: {sz}'
+    ref_in = [32 + 4 + len(ref_varint(len(i[2]) // 2)) + len(i[2]) // 2 + 4 for i in t['ins']]
+    ref_out = [8 + len(ref_varint(len(o[1]) // 2)) + len(o[1]) // 2 for o in t['outs']]
+    if sz['size'] != len(want) or sz['ins'] != ref_in or sz['outs'] != ref_out or \
+            sz['base_size'] != len(want) - sum(ref_in) - sum(ref_out):
+        return 'Transaction.size / base_size / Input.size / Output.size differ from the byte counts of the encoding'
     if built['id'] != sha256(sha256(want))[::-1].hex():
         return 'Transaction.id is not the reversed double SHA-256 of the serialisation'
     if 'err' in parsed:
@@ -524,7 +570,14 @@ def strip_impl(obs):
     return {k: v for k, v in obs.items() if k != 'raw_kept'}
 
 
+def saturated(run):
+    """20 recorded violations: nothing further is stored, so a broken tree need not be explored to the end"""
+    return len(run.violations) >= 20
+
+
 def run_build(run, model, t, kind, kinds=()):
+    if saturated(run):
+        return
     case = {'op': 'build', 'tx': t, 'kind': kind}
     built, txobj = impl_build(t)
     mbuilt = model.call('build', tx=t)
@@ -567,6 +620,8 @@ def run_build(run, model, t, kind, kinds=()):
 
 
 def run_raw(run, model, raw, kind, expect_txid=None, name=None):
+    if saturated(run):
+        return
     case = {'op': 'raw', 'raw': raw.hex(), 'kind': kind}
     if name:
         case['name'] = name
@@ -579,6 +634,8 @@ def run_raw(run, model, raw, kind, expect_txid=None, name=None):
         'parsed-segwit' if obs['flag'] else 'parsed' + ('' if None not in (obs['version'], obs['locktime']) else '-none'))
     run.count('raw:' + kind.split(':')[0] + ':' + outcome)
     bad, ref = monitor_raw(raw, obs, expect_txid)
+    if obs.get('err') == HUNG:
+        bad = f'Transaction(raw) did not return within {IMPL_LIMIT_S} s'
     if ref is not None:
         run.count('raw:accepted-by-reference' + (':segwit' if ref[1] is not None else ''))
     if kind in ('corpus', 'segwit', 'valid') and ref is None:
@@ -591,6 +648,8 @@ def run_raw(run, model, raw, kind, expect_txid=None, name=None):
 
 def run_segwit(run, model, t, wits, flag, kind):
     """segwit encoding produced by the reference encoder AND by the extracted model encoder"""
+    if saturated(run):
+        return
     raw = ref_encode(t, wits, flag)
     mraw = model.call('segwit', tx=t, flag=flag, wits=wits)
     case = {'op': 'segwit', 'tx': t, 'wits': wits, 'flag': flag, 'kind': kind}
